@@ -151,8 +151,18 @@ def _worker(args):
     for rec in chunk:
         try:
             out.append(f(rec, ctx))
-        except Exception:
+        except MachineryError:
             out.append({"error": traceback.format_exc(), "rec": rec})
+        except Exception as ex:
+            tb = traceback.format_exc()
+            if fn.startswith("replay"):
+                # a replay that cannot be carried out on this tree (the library raised, or handed back something the
+                # adapter cannot read) is a deviation from the specified behaviour, reported like any other one; on the
+                # unchanged tree no replay raises, so this cannot fire there without being looked at
+                where = "library" if ("/repo/" in tb.split("Traceback")[-1].split("File")[-1] or "cherab" in tb.splitlines()[-3]) else "adapter"
+                out.append([{"sig": f"replay-raised-{type(ex).__name__}@{where}", "detail": tb[-900:]}])
+            else:
+                out.append({"error": tb, "rec": rec})
     return out
 
 
